@@ -3,6 +3,7 @@ from lib.facts import norm, direct_place, const_int, origins, place_fields, noph
 from lib import tables
 from .C15 import const_str
 
+INLINE = True      # crate-local helpers the rules do not know by name are inlined into their callers (lib/inline.py)
 EXPLANATION = (
     "Narrow: constant-table agreement only. R18.1 TimeScale::from_picos is a chain of `<` tests against the constants "
     "1e3, 1e6, 1e9, 1e12, 60e12, 3600e12, 86400e12 in ascending order, each returning the unit whose picos() value is the "
